@@ -163,13 +163,14 @@ let () =
                  | [s; e; z; t; b] -> ((((n_of_int (int_of_string s), n_of_int (int_of_string e)), bytes_of_hex z), bytes_of_hex b), bytes_of_hex t)
                  | _ -> failwith "part") (String.split_on_char ',' parts) in
       let r = { pr_version = bytes_of_string "HTTP/1.1"; pr_status = n_of_int (int_of_string code); pr_reason = bytes_of_hex rsn; pr_headers = hl; pr_ranges = pl } in
+      let dom = if single_ok r then 1 else 0 in
       let g = lib_generate (ser = "inst") r in
       Printf.printf "G %s | " (hex_of_bytes g);
       (match response_parse g with
-       | POk r -> Printf.printf "OK %s %d %s h=[%s] r=[%s]\n" (hex_of_bytes r.pr_version) (int_of_n r.pr_status) (hex_of_bytes r.pr_reason)
+       | POk r -> Printf.printf "OK %s %d %s h=[%s] r=[%s] dom=%d\n" (hex_of_bytes r.pr_version) (int_of_n r.pr_status) (hex_of_bytes r.pr_reason)
                     (String.concat ";" (List.map (fun h -> hex_of_bytes h.hname ^ ":" ^ hex_of_bytes h.hvalue) r.pr_headers))
-                    (String.concat ";" (List.map (fun ((((s, e), z), b), t) -> Printf.sprintf "%s-%s/%s:%s:%s" (string_of_bytes (Model.show_N s)) (string_of_bytes (Model.show_N e)) (string_of_bytes z) (hex_of_bytes b) (hex_of_bytes t)) r.pr_ranges))
-       | PErr -> print_endline "ERR" | PPanicCL | PPanicIdx -> print_endline "PANIC")
+                    (String.concat ";" (List.map (fun ((((s, e), z), b), t) -> Printf.sprintf "%s-%s/%s:%s:%s" (string_of_bytes (Model.show_N s)) (string_of_bytes (Model.show_N e)) (string_of_bytes z) (hex_of_bytes b) (hex_of_bytes t)) r.pr_ranges)) dom
+       | PErr -> Printf.printf "ERR dom=%d\n" dom | PPanicCL | PPanicIdx -> print_endline "PANIC")
     | ["rp"; h] ->
       (match response_parse (bytes_of_hex h) with
        | POk r -> Printf.printf "OK %s %d %s h=[%s] r=[%s]\n" (hex_of_bytes r.pr_version) (int_of_n r.pr_status) (hex_of_bytes r.pr_reason)
